@@ -460,6 +460,13 @@ impl Engine {
         if mints.len() != 1 {
             self.v("C19", "one_mint_per_stake", format!("stake emitted {} mint messages", mints.len()));
         }
+        // the mint message carries exactly the amount the contract accounts for and reports
+        let reported: Option<u128> = res.attr("mint_amount").and_then(|a| a.parse().ok());
+        if let Some(rep) = reported {
+            if rep != minted || mints.iter().any(|m| m.0 != lst || m.2 != s) {
+                self.v("C19", "mint_message_exact", format!("mint message(s) {:?} but the contract reports mint_amount {}", mints.iter().map(|m| (m.0.clone(), m.1, m.2.clone())).collect::<Vec<_>>(), rep));
+            }
+        }
         // forwarding of the staked asset (C01)
         let sent: Vec<Packet> = res.effects.iter().filter_map(|e| match e { Effect::IbcSend { pkt } => Some(self.w.st.packets[*pkt].clone()), _ => None }).collect();
         let fw: Vec<&Packet> = sent.iter().filter(|p| p.denom == ibc).collect();
